@@ -154,7 +154,7 @@ Fixpoint logp_down (a puiss : Z) (pows : list Z) (res : Z) : Z :=
   | q :: rest => let sq := opMul_I puiss q in
                  if opLe_I sq a then logp_down a sq rest (res + 2 ^ Z.of_nat (List.length rest)) else logp_down a puiss rest res
   end.
-(*@ logp | src/kernel/gmp++/gmp++_int_misc.C | int64_t logp(const Integer& a, const Integer& p) | 0 *)
+(*@ logp | src/kernel/gmp++/gmp++_int_misc.C | int64_t logp(const Integer& a, const Integer& p) | 4a0f449c8dd8 *)
 Definition logp (a p : Z) : Z :=
   match logp_up (Z.to_nat (Z.log2 a)) a (ctor_copy p) nil with
   | nil => 0
@@ -168,7 +168,7 @@ Fixpoint pp_loop (fuel : nat) (U V : Z) : Z :=
   | O => U
   | S f => if opNe_I V Integer_one then let U1 := Z.quot U V in pp_loop f U1 (gcd_v U1 V) else U
   end.
-(*@ pp | src/kernel/gmp++/gmp++_int_gcd.C | Integer pp( const Integer& P, const Integer& Q ) | 0 *)
+(*@ pp | src/kernel/gmp++/gmp++_int_gcd.C | Integer pp( const Integer& P, const Integer& Q ) | ac2e1184027a *)
 Definition pp (P Q : Z) : Z := pp_loop (S (Z.to_nat (Z.log2 (Z.abs P)))) (ctor_copy P) (gcd_v P Q).
 
 (* ------------------------------------------------------------------ givinteger.h: ZRing<Integer> wrappers with a body of their own *)
